@@ -18,11 +18,13 @@ func init() {
 		r.floor("R4", 10)
 	}, checkC27)
 	register("C28", func(r *Report) {
-		r.Explanation = "Decides absence of an unconditional wait, for all gateway behaviours: (R1) every blocking select, receive and send in package client has a case on the awaited transaction's Done() and/or on a context derived from the client's context; (R2) every function that arms or re-arms the sleep transaction's timers ends, on every non-failing path, with a timer armed or the transaction completed, and all other awaited transactions are built on NewRetryTransaction / NewTimedTransaction (self-terminating, C19); (R3) in every API method a failed send completes the transaction (or returns) before the wait; (R4) Close cancels the context on every path; (R5) no function of package client returns with a mutex still held; (R6) a completion callback frees the store slot the transaction occupies (a stale entry swallows the gateway's DISCONNECT). Not decided: the numeric bound; user callbacks."
+		r.Explanation = "Decides absence of an unconditional wait, for all gateway behaviours: (R1) every blocking select, receive and send in package client has a case on the awaited transaction's Done() and/or on a context derived from the client's context; (R2) every function that arms or re-arms the sleep transaction's timers ends, on every non-failing path, with a timer armed or the transaction completed, and all other awaited transactions are built on NewRetryTransaction / NewTimedTransaction (self-terminating, C19); (R3) in every API method a failed send completes the transaction (or returns) before the wait; (R4) Close cancels the context on every path; (R5) no function of package client returns with a mutex still held; (R6) a completion callback frees the store slot the transaction occupies (a stale entry swallows the gateway's DISCONNECT); (R7) lock discipline in packages client, transactions and util: nothing waits (select, channel operation, Wait, or a call that may do one) while a mutex is certainly held, and no call made under a lock reaches a function that acquires the same (non-reentrant) lock. (R8) every goroutine of the client's errgroup observes the group's context (not its parent), so a failing member stops the others and Wait returns. Not decided: the numeric bound; user callbacks."
 		r.floor("R1", 8)
 		r.floor("R3", 4)
 		r.floor("R4", 1)
 		r.floor("R5", 3)
+		r.floor("R7", 2)
+		r.floor("R8", 2)
 		r.floor("R6", 8)
 	}, checkC28)
 	register("C33", func(r *Report) {
@@ -645,6 +647,10 @@ func checkC28(c *Ctx, r *Report) {
 	c.checkLockBalance(r, "R5", "client")
 	// R6
 	c.checkFinallyKeys(r, "R6", "client")
+	// R7: no wait under a lock, no re-acquisition of a held lock (client library and the transactions it waits on)
+	c.checkLockDiscipline(r, "R7", c.newLockInfo(), []string{"client", "transactions", "util"})
+	// R8: every member of the client's errgroup observes the group context
+	c.checkGroupContexts(r, "R8", "client")
 	// R2: sleep transaction timers
 	c.checkSleepTimers(r, m)
 }
